@@ -847,7 +847,72 @@ def c10_18(ctx):
     return shared_obligations(ctx, ["psbt", "psbt_helper", "tx", "script"], "the result would depend on something other than the arguments and the object's current state")
 
 
+def c10_19(ctx):
+    """PSBTOut.validate accepts, for every wallet type, exactly the metadata the updater attaches to one of the wallet's own outputs
+    (RedeemScript / WitnessScript / the key's derivation) and refuses the same output with a foreign key: cell evaluation over
+    {p2pkh, p2wpkh, p2sh-p2wpkh, p2sh multisig, p2wsh multisig, p2sh-p2wsh multisig} x {own key, foreign key}; script hashes and the keys'
+    hash160 are stand-ins.  An honest output that is refused means the library cannot load the PSBT it has just updated and serialised"""
+    import hashlib
+    from sa.cells import Evaluator, Obj, Raised, Undecided
+    spec = "psbt:PSBTOut.validate"
+    mod, fn = rl.get(ctx, spec)
+    H = lambda b: hashlib.sha1(b).digest()
+    S = lambda b: hashlib.sha256(b).digest()
+    K1, K2, K3, KF = (b"\x02" + bytes([i]) * 32 for i in (0x11, 0x22, 0x33, 0x99))
+
+    def ser(cmds):
+        return b"|".join(c if isinstance(c, bytes) else bytes([c]) for c in cmds)
+    hooks = {("Script", "raw_serialize"): lambda o: ser(o.attrs["commands"]), ("RedeemScript", "hash160"): lambda o: H(ser(o.attrs["commands"])),
+             ("WitnessScript", "sha256"): lambda o: S(ser(o.attrs["commands"])), ("NamedPublicKey", "hash160"): lambda o, *a, **k: H(o.attrs["sec"]),
+             ("NamedPublicKey", "sec"): lambda o, *a, **k: o.attrs["sec"], ("S256Point", "hash160"): lambda o, *a, **k: H(o.attrs["sec"]),
+             ("S256Point", "sec"): lambda o, *a, **k: o.attrs["sec"]}
+
+    def named(sec):
+        return Obj("psbt", "NamedPublicKey", {"sec": sec})
+
+    def script(cls, cmds):
+        return Obj("script", cls, {"commands": list(cmds)})
+    multi = [0x52, K1, K2, K3, 0x53, 0xAE]
+    rs_multi, ws_multi = script("RedeemScript", multi), script("WitnessScript", multi)
+    rs_wpkh = script("RedeemScript", [0, H(K1)])
+    rs_wsh = script("RedeemScript", [0, S(ser(multi))])
+    wallets = [
+        ("p2pkh", script("P2PKHScriptPubKey", [0x76, 0xA9, H(K1), 0x88, 0xAC]), None, None, [K1]),
+        ("p2wpkh", script("P2WPKHScriptPubKey", [0, H(K1)]), None, None, [K1]),
+        ("p2sh-p2wpkh", script("P2SHScriptPubKey", [0xA9, H(ser(rs_wpkh.attrs["commands"])), 0x87]), rs_wpkh, None, [K1]),
+        ("p2sh multisig", script("P2SHScriptPubKey", [0xA9, H(ser(multi)), 0x87]), rs_multi, None, [K1, K2, K3]),
+        ("p2wsh multisig", script("P2WSHScriptPubKey", [0, S(ser(multi))]), None, ws_multi, [K1, K2, K3]),
+        ("p2sh-p2wsh multisig", script("P2SHScriptPubKey", [0xA9, H(ser(rs_wsh.attrs["commands"])), 0x87]), rs_wsh, ws_multi, [K1, K2, K3]),
+    ]
+    out = []
+    for label, spk, rs, ws, keys in wallets:
+        for foreign in (False, True):
+            ctx.count("cells")
+            ks = [KF] + keys[1:] if foreign else keys
+            me = Obj("psbt", "PSBTOut", {"tx_out": Obj("tx", "TxOut", {"amount": 1000, "script_pubkey": spk}), "redeem_script": rs, "witness_script": ws,
+                                         "named_pubs": {k: named(k) for k in ks}, "extra_map": {}})
+            try:
+                Evaluator(ctx.repo, method_hooks=hooks).call(spec, [], self_obj=me)
+                accepted = True
+            except Raised:
+                accepted = False
+            except Undecided as u:
+                return [ctx.err(spec, "validate not evaluable for a %s output: %s" % (label, u), fn, mod)]
+            if accepted == foreign:
+                if foreign:
+                    out.append(ctx.bad(spec, "a %s output whose attached derivation names a key that is not committed to by the output is accepted" % label, fn, mod, key="out-metadata:" + label))
+                else:
+                    out.append(ctx.bad(spec, "a %s output carrying exactly what PSBTOut.update attaches to it (%s its key's derivation) is refused: a PSBT of such a wallet with a change "
+                                             "output cannot be loaded again after update + serialize" % (label, "RedeemScript and " if rs and not ws else ("scripts and " if ws else "")),
+                                       fn, mod, key="out-metadata:" + label))
+                break
+        else:
+            out.append(ctx.ok(spec, "%s output: the updater's metadata is accepted, a foreign key is refused" % label, fn, mod, key="out-metadata:" + label))
+    return out
+
+
 OBLIGATIONS = [
+    ("C10.19", "CELLS output metadata", c10_19),
     ("C10.18", "SHARED", c10_18),
     ("C10.17", "SET-ORDER", c10_17),
     ("C10.12", "DATAFLOW commitment", c10_12),
